@@ -2558,6 +2558,15 @@ static void Produce_Code(void) {
                 AttrPartOpSize = eSymbolSizeUnknown;
                 if (DecodeAttrPart ? DecodeAttrPart() : True) {
                     if (!CodeGlobalPseudo()) {
+                        /* What a statement without a repetition factor can lay down is
+                           bounded by the length of its text (at most a 96-bit float per
+                           two characters, a quadword per character of a string).  The data
+                           statements of many targets fill the code buffer without asking
+                           for room, and it starts out with 256 bytes: provide the room here. */
+
+                        LongWord NeedLen = MaxCodeLen_Ini + 16 * strlen(OneLine.p_str);
+
+                        SetMaxCodeLen((NeedLen < MaxCodeLen_Max) ? NeedLen : MaxCodeLen_Max);
                         MakeCode();
                     }
                 }
